@@ -53,6 +53,29 @@ Theorem C06_txn_iter_seek : forall now s ws readTs o key,
 Proof. exact txn_scan_fwd_seek. Qed.
 Print Assumptions C06_txn_iter_seek.
 
+(** Update transactions: with pending writes (distinct keys, stamped with
+    readTs by newPendingWritesIterator and merged in front of the LSM sources)
+    the forward scan lists the snapshot overlaid with the transaction's own
+    writes: a pending write shadows the committed versions of its key, a
+    pending delete hides the key. *)
+Theorem C06_txn_iter_pending : forall now s ws pw readTs o,
+  iter_inv s -> content_ok s ws -> seq_functional ws -> (forall w, In w (ws ++ pw) -> wf_key w = true) ->
+  pw <> [] -> NoDup (map r_key pw) -> (forall p, In p pw -> r_ver p = readTs) ->
+  o_rev o = false -> o_all o = false ->
+  map item_sitem (txn_list current now s readTs pw o ARewind) = spec_scan now ws pw readTs (sopts_of o None).
+Proof. exact txn_scan_fwd_pending. Qed.
+Print Assumptions C06_txn_iter_pending.
+
+Theorem C06_txn_iter_pending_nonvacuous :
+  pw_ex <> [] /\ NoDup (map r_key pw_ex) /\ (forall p, In p pw_ex -> r_ver p = 3) /\
+  (forall w, In w (w_ex ++ pw_ex) -> wf_key w = true) /\
+  map item_sitem (txn_list current 100 s_ex 3 pw_ex (plain_opts false false) ARewind)
+  = [ {| s_key := of_string "a"; s_ver := 3; s_val := of_string "y" |};
+      {| s_key := of_string "ab"; s_ver := 3; s_val := of_string "p" |};
+      {| s_key := of_string "b"; s_ver := 3; s_val := of_string "q" |} ].
+Proof. exact ex_pending. Qed.
+Print Assumptions C06_txn_iter_pending_nonvacuous.
+
 (** ... and every listed value is what a point read of the snapshot returns. *)
 Theorem C06_matches_get : forall now s ws readTs o i,
   iter_inv s -> content_ok s ws -> seq_functional ws -> (forall w, In w ws -> wf_key w = true) ->
@@ -109,6 +132,24 @@ Theorem C06_txn_iter_reverse_partial : forall now s ws readTs o,
   map item_sitem (txn_list current now s readTs [] o ARewind) = spec_scan now ws [] readTs (sopts_of o None).
 Proof. exact txn_scan_rev_partial. Qed.
 Print Assumptions C06_txn_iter_reverse_partial.
+
+(** Reverse Seek, including TxnIterator.Seek's fallback (Rewind and skip the
+    items above the target): keys <= target, clamped at the exclusive
+    UpperBound, rejected below LowerBound. *)
+Theorem C06_txn_iter_reverse_seek : forall now s ws readTs o key,
+  iter_inv s -> content_ok s ws -> seq_functional ws -> (forall w, In w ws -> wf_key w = true) ->
+  o_rev o = true -> o_all o = true -> key <> [] ->
+  map item_sitem (txn_list current now s readTs [] o (ASeek key)) = spec_scan now ws [] readTs (sopts_of o (Some key)).
+Proof. exact txn_scan_rev_seek_all. Qed.
+Print Assumptions C06_txn_iter_reverse_seek.
+
+Theorem C06_txn_iter_reverse_seek_partial : forall now s ws readTs o key,
+  iter_inv s -> content_ok s ws -> seq_functional ws -> (forall w, In w ws -> wf_key w = true) ->
+  no_repeat (filter (visible readTs) (fstream s)) = true ->
+  o_rev o = true -> o_all o = false -> key <> [] ->
+  map item_sitem (txn_list current now s readTs [] o (ASeek key)) = spec_scan now ws [] readTs (sopts_of o (Some key)).
+Proof. exact txn_scan_rev_seek_partial. Qed.
+Print Assumptions C06_txn_iter_reverse_seek_partial.
 
 Theorem C06_txn_iter_reverse_partial_nonvacuous :
   no_repeat (filter (visible max_u64) (fstream s_db)) = true.
